@@ -62,6 +62,12 @@ func (sc *scenario) fairEnv() {
 				gen--
 			}
 			want := vs.M{"ready": true, "observedGeneration": gen, "conditions": []interface{}{vs.M{"type": "Ready", "status": "True"}}}
+			switch sc.ogMode {
+			case 1: // the children's controller does not report observedGeneration
+				delete(want, "observedGeneration")
+			case 2: // ... or serialises the field without ever setting it
+				want["observedGeneration"] = int64(0)
+			}
 			if sc.sick > 0 && name == "p1-0" {
 				// one round in which the first child is unhealthy: its Ready condition is False; its controller may not report
 				// observedGeneration at all (1), report 0 (2) or report it properly (3)
@@ -420,6 +426,9 @@ func runRollout(r *vs.Rand, i int, seed uint64, out *vs.Out, crash bool) {
 	lagRound := -1
 	if r.Chance(40) {
 		lagRound = changeAt + 1 + r.Intn(replicas+1)
+	}
+	if r.Chance(35) {
+		sc.ogMode = 1 + r.Intn(2)
 	}
 	sickRound, sickKind := -1, 0
 	if r.Chance(60) {
